@@ -519,3 +519,19 @@ CHECKS['C07']['level_text'] = CHECKS['C07']['level_text'] + (" BATCH OPERATOR: a
     "sequential execution, store and replies), C07_grouping_independent and C07_two_groupings_agree (however the log is cut into apply events the result is that of the sequential execution), "
     "for every store and request list, under the stated hypothesis that batchable-named single-key requests read and write their first key only.")
 CHECKS['C07']['partial'] = CHECKS['C07']['partial'] + ["the hypothesis `Admissible` of the batch-operator theorems (SET / SETEX / HMSET / single-key DEL touch only their first key) is discharged for the KV model by its shape, not for the real handlers: the table key counter (a commutative merge) and the HyperLogLog cache are outside; on the real code grouping independence is judged by the shadows"]
+
+# ---- protocol srvmerge (work package wS): the server's merge layer on a real multi-partition server
+SRVMERGE_RULE = "srvmerge: sessions on a REAL in-process server.Server (pebble, single replica, ONE namespace `default` with P partitions, P from 1,2,3,4,5,6,7,8,10,12,16 - every run has an even non-power-of-two, an odd and a power-of-two count; each partition its own raft group) through the real entry point Server.serverRedis, half of the sessions over a real TCP/RESP connection to the redis port (redcon reads and pipelines), half through an in-memory redcon.Conn that hands out pipelines like redcon; a Go shadow of everything written (per-type keyspaces) is the reference 'one store'. "
+CHECKS['C15']['protos'].append({'name': 'srvmerge', 'quick_seeds': 1, 'thorough_seeds': 2, 'env': {'SRVMERGE_FOCUS': 'route,multi'}, 'classes': '(route-|multi-|pipe-|panic|hang|harness)'})
+CHECKS['C15']['rule'] = CHECKS['C15']['rule'] + ' || ' + SRVMERGE_RULE + "C15 part (9 sessions x 90 ops quick, 40 x 200 thorough) over a pool of 6-15 adversarial keys in five tables (t, t2, order, order_item, a-b): writes of all five types through the server, after each one EVERY partition's node is asked directly (its own read handler) who holds the key - exactly one, the one the SDK formula and the Lean partition model compute (line-by-line comparison) - and GET / EXISTS through the server find it; EXISTS / DEL / PLSET / MGET with 1-8 keys spread over partitions, a quarter of the arguments repeated; pipelines of 2-8 commands (all SETs = rewritten to one PLSET by the server; or mixed with GET / EXISTS / DEL; one in ten all-SET pipelines carries a SET whose key no store accepts) judged by 'pipelining is transparent'; after every multi-key command the state of every touched key is read back through the server and located in the partitions"
+CHECKS['C15']['level_note'] = 'murmur3 library and 64-bit int are trusted via the differential run; server-level execution (routing of every write, EXISTS / DEL / PLSET / MGET and pipelined SETs across 1-16 partitions) is driven by protocol srvmerge on a real multi-partition server: which partition holds a key is compared with the Lean partition model, replies and resulting state with a Go shadow store.'
+CHECKS['C13']['protos'].append({'name': 'srvmerge', 'quick_seeds': 1, 'thorough_seeds': 2, 'env': {'SRVMERGE_FOCUS': 'scan'}, 'classes': '(scan-|panic|hang|harness)'})
+CHECKS['C13']['rule'] = CHECKS['C13']['rule'] + ' || ' + SRVMERGE_RULE + "C13 part (9 sessions quick, 30 thorough): 2-5 tables whose names are prefixes of each other and neighbours in byte order (t / t2 / t_ / tt, order / order_item / orde) populated through the server with 0-55 (thorough: up to 270) keys per table and type (kv and collections of 1-5 elements; sequential names or adversarial ones with ':' ';' 0x00 0xfe 0xff, prefixes of each other) spread over all partitions; 36 (thorough 120) client loops 'feed the cursor back until it is empty' per session for SCAN / REVSCAN / ADVSCAN / ADVREVSCAN (all five types) / FULLSCAN, COUNT omitted, 1, 2, 3, 7, 100 and k*P, a quarter with MATCH (patterns of literals, * and ?); reverse loops start from the cursor base64(pid:base64(ff ff ff ff);...) for every partition; oracle: every key of the table and type exactly once (FULLSCAN: every element of every key exactly once), nothing of another table or type, termination within keys+2P+8 rounds, ascending (reverse: descending) order inside each partition, with MATCH exactly the matching subset; SCAN / REVSCAN additionally with a client that repairs the returned cursor (see known finding C13-merged-scan-cursor-table-twice)"
+CHECKS['C13']['level_note'] = "ADVSCAN's table rule is differential/oracle only; MATCH and the server's cross-partition cursor packing (server/scan_merge.go) are driven by protocol srvmerge on a real multi-partition server and judged by the oracle only"
+CHECKS['C11']['protos'].append({'name': 'srvmerge', 'quick_seeds': 1, 'thorough_seeds': 2, 'env': {'SRVMERGE_FOCUS': 'raw'}, 'classes': '(process-died|panic|no-reply|hang|harness)'})
+CHECKS['C11']['rule'] = CHECKS['C11']['rule'] + ' || ' + SRVMERGE_RULE + "C11 part: the server runs in a CHILD process (a panic inside a goroutine of the merge layer has no recover and kills the whole process); 4 x 400 (quick) / 20 x 2500 (thorough) argument vectors for SCAN / REVSCAN / ADVSCAN / ADVREVSCAN / FULLSCAN / HIDX.FROM / EXISTS / DEL / PLSET (30% from the vector generator of protocol mergeargs: malformed cursors and types, COUNT / MATCH / WHERE words at wrong places, negative / huge / non-numeric numbers, dropped and duplicated arguments; 40% valid merge commands with one adversarial argument - COUNT negative / -P / huge / non-numeric, every WHERE condition of the pool with and without a post command, MATCH patterns that do not compile, valid and damaged cross-partition cursors base64(pid:base64(cursor);...) - which get past the server's own argument handling into the partitions' handlers; the rest EXISTS / DEL / PLSET / SET / GET / MGET over malformed, foreign-namespace, over-long keys) are sent over TCP, the first child of a run has 1 or 2 partitions; each request is followed by a PING: the process must be alive (process-died), the connection must still answer (hang), must not have been closed by the server's recover (panic:conn-closed) and the request must have been answered at all (no-reply)"
+CHECKS['C11']['level_note'] = "the extractor understands constant indexes and len guards, not data flow (a negative SETRANGE offset was found by the fuzz, not by the table; fixed); redcon parsing and the server's connection-level recover are outside"
+CHECKS['C15']['partial'] = ['MGET across partitions is not a merge command in this tree (routed by first key): known finding C15-mget-not-merged, reproduced by protocol srvmerge on the real server', 'srvmerge judges the multi-key commands by a Go shadow store (oracle), the Lean theorem C15_merge_equals_single_store covers the counting argument only; DEL counts a repeated existing key per occurrence exactly as one store of this code base does (`DEL k k` = 2, redis: 1; counted in the notes as deviation-from-redis)']
+CHECKS['C13']['trusted'] = ['MATCH: the store matches the pattern against `table:key` for key scans and against the key part for FULLSCAN of collections, a client sees key parts only; the srvmerge oracle accepts either reading for patterns that do not start with `*` and counts which one the code took (notes match-reading:*); its own matcher knows literals, * and ? only', 'srvmerge is oracle-only for scans (no Lean model of the cross-partition cursor codec)']
+CHECKS['C13']['partial'] = [x for x in CHECKS['C13']['partial'] if 'negative COUNT' not in x and not x.startswith('MATCH;')] + ['MATCH: oracle only (protocols scan: fullm/cfullm; srvmerge); stability under concurrent insert/remove between pages not built', 'a negative COUNT is refused (fix 4c13001)']
+CHECKS['C11']['partial'] = ['C11_error_no_effect / C11_next_command_unaffected are oracle-only', 'read commands and merge commands: fuzz only (merge commands: through the real Server.serverRedis of a multi-partition server in a child process, protocol srvmerge; survival and reply presence only)']
